@@ -43,6 +43,11 @@ int ep_cmp(const ep_t p, const ep_t q) {
 		return RLC_EQ;
 	}
 
+	/* The cross-multiplication below would compare zeroes. */
+	if (ep_is_infty(p) || ep_is_infty(q)) {
+		return RLC_NE;
+	}
+
 	ep_null(r);
 	ep_null(s);
 
